@@ -318,3 +318,23 @@ pub fn three_values(n: usize) -> [Bits; 3] {
         realize_val(&ValPat::Dense(vec![0x9E37_79B9_7F4A_7C15, 0xD1B5_4A32_D192_ED03, 0x8CB9_2BA7_2F3D_8DD7]), n, 8),
     ]
 }
+
+/// Lengths for the "thousands of bits" enumerations of the unbounded types.
+pub const LONG_LENS: [usize; 7] = [1024, 1025, 1343, 2048, 4097, 6000, 8193];
+
+/// Value classes for long vectors: all ones, dense, only the top bit, top bit plus a low part,
+/// a small value, one all-zero interior stretch.
+pub fn long_values(n: usize) -> Vec<Bits> {
+    let dense = realize_val(&ValPat::Dense(vec![0x9E37_79B9_7F4A_7C15, 0xD1B5_4A32_D192_ED03, 0x0123_4567_89AB_CDEF, 0xFEDC_BA98_7654_3210]), n, 64);
+    let mut hot = Bits::zeros(n);
+    hot.0[n - 1] = true;
+    let mut hot_low = hot.clone();
+    for i in 0..n.min(16) {
+        hot_low.0[i] = (0xdeadu32 >> i) & 1 == 1;
+    }
+    let mut gap = dense.clone();
+    for i in (n / 3)..(2 * n / 3) {
+        gap.0[i] = false;
+    }
+    vec![Bits::ones(n), dense, hot, hot_low, Bits::from_u128(5, n), gap]
+}
